@@ -549,3 +549,39 @@ Ltac go_returned :=
       assert (forall l r st, fold_left f l (Some r, st) = (Some r, st)) as Hret
         by (let l := fresh "l" in intro l; induction l as [|? ? IHl]; intros; cbn [fold_left]; [reflexivity|apply IHl])
   end.
+
+(* ---------------------------------------------------------------- sort.Strings *)
+From Coq Require Import Sorting.Sorted.
+
+Lemma sort_insert_perm : forall x l, Permutation (x :: l) (sort_insert x l).
+Proof.
+  induction l as [|y r IH]; simpl; auto. destruct (String.leb x y); auto.
+  eapply perm_trans; [apply perm_swap|]. now apply perm_skip.
+Qed.
+
+Lemma sort_Strings_perm : forall l, Permutation l (sort_Strings l).
+Proof.
+  induction l as [|x l IH]; simpl; auto. eapply perm_trans; [apply perm_skip, IH|]. apply sort_insert_perm.
+Qed.
+
+Lemma sleb_total_true : forall a b, String.leb a b = false -> String.leb b a = true.
+Proof. intros a b H. destruct (String.leb_total a b); congruence. Qed.
+
+Lemma sort_insert_sorted : forall x l, Sorted (fun a b => String.leb a b = true) l ->
+  Sorted (fun a b => String.leb a b = true) (sort_insert x l).
+Proof.
+  induction l as [|y r IH]; simpl; intros S; [repeat constructor|].
+  destruct (String.leb x y) eqn:E; [constructor; auto|].
+  inversion S; subst. constructor; [now apply IH|].
+  destruct r as [|z r']; simpl; [constructor; now apply sleb_total_true|].
+  destruct (String.leb x z); constructor; [now apply sleb_total_true|]. inversion H2; auto.
+Qed.
+
+Lemma sort_Strings_sorted : forall l, Sorted (fun a b => String.leb a b = true) (sort_Strings l).
+Proof. induction l as [|x l IH]; simpl; [constructor|now apply sort_insert_sorted]. Qed.
+
+Lemma strings_Join_empty_sep : forall l, strings_Join l "" = fold_right String.append EmptyString l.
+Proof.
+  unfold strings_Join. induction l as [|x l IH]; [reflexivity|]. destruct l as [|y l']; [simpl; now rewrite sapp_nil_r|].
+  change (String.concat "" (x :: y :: l')) with (x ++ "" ++ String.concat "" (y :: l'))%string. rewrite IH. reflexivity.
+Qed.
